@@ -853,6 +853,28 @@ func c06r9(p *Program, r *Report) {
 			if !ok || fs.Cond != nil {
 				return true
 			}
+			// only loops that wait: a loop without a select or a channel receive is bounded by its own data
+			waits := false
+			inspectNoLit(fs.Body, func(x ast.Node) bool {
+				switch u := x.(type) {
+				case *ast.SelectStmt:
+					waits = true
+				case *ast.UnaryExpr:
+					if u.Op == token.ARROW {
+						waits = true
+					}
+				case *ast.RangeStmt:
+					if t := info.TypeOf(u.X); t != nil {
+						if _, isCh := t.Underlying().(*types.Chan); isCh {
+							waits = true
+						}
+					}
+				}
+				return true
+			})
+			if !waits {
+				return true
+			}
 			// unconditional loop: must have a comm clause receiving from a channel whose body leaves the loop
 			var quitCh []string
 			inspectNoLit(fs.Body, func(x ast.Node) bool {
